@@ -36,22 +36,61 @@ def unbits(n):
 # running the implementation
 
 def make_datasets(case, sets=None):
-    '''datasets of the case; case['layouts'][k] = [layout of the values, of the errors] of
-    dataset k (memory layout only: the logical content is the same)'''
+    '''datasets of the case.  Presentation only (same numbers): case['layouts'][k] = memory layouts
+    [values, errors] of dataset k, case['dtypes'][k] = integer dtypes, case['masks'][k] = mask given to
+    Dataset.mask() (flat 0/1 list) or None'''
     from valjean.eponine.dataset import Dataset
-    shape = tuple(case['shape'])
     lay = case.get('layouts') or []
-
-    def arr(flat, kind):
-        vals = [unbits(b) for b in flat]
-        if not shape:
-            return np.float64(vals[0])
-        return layouts.apply(np.array(vals, dtype=float).reshape(shape), kind)
+    dty = case.get('dtypes') or []
+    msk = case.get('masks') or []
+    use_masks = sets is None
     out = []
     for k, (v, e) in enumerate(sets if sets is not None else case['datasets']):
-        kv, ke = lay[k] if k < len(lay) else ('C', 'C')
-        out.append(Dataset(arr(v, kv), arr(e, ke)))
+        out.append(layouts.make_dataset(
+            Dataset, case['shape'], [unbits(b) for b in v], [unbits(b) for b in e],
+            lay[k] if k < len(lay) else ('C', 'C'), dty[k] if k < len(dty) else None,
+            msk[k] if use_masks and k < len(msk) else None))
     return out
+
+
+def expected_masks(case):
+    '''per compared dataset: bins masked on either side (flat list of bool), or None'''
+    msk = case.get('masks') or []
+    if not any(m is not None for m in msk):
+        return None
+    size = len(case['datasets'][0][0])
+    get = lambda k: [bool(x) for x in msk[k]] if k < len(msk) and msk[k] is not None else [False] * size
+    ref = get(0)
+    return [[a or b for a, b in zip(ref, get(d + 1))] for d in range(len(case['datasets']) - 1)]
+
+
+def observe(test, res, shape):
+    '''canonical observation of a (test, result) pair'''
+    ndat = len(test.datasets)
+    oracles = np.asarray(res.oracles())
+    tpv = res.test_pvalue()
+    obs = {'thr': bits(test.threshold), 'verdict': bool(res), 'datasets': [],
+           'alpha': bits(test.alpha), 'ndf': test.ndf}
+    if len(res.tstud) != ndat or oracles.shape != (ndat,) + shape \
+            or not isinstance(tpv, (list, tuple, np.ndarray)) or len(tpv) != ndat \
+            or len(res.pvalue) != ndat:
+        obs['malformed'] = (f'tstud {len(res.tstud)}, oracles {oracles.shape}, '
+                            f'test_pvalue() = {tpv if not isinstance(tpv, (list, tuple, np.ndarray)) else len(tpv)!r}')
+        return obs
+    for d in range(ndat):
+        tst = np.asarray(res.tstud[d], dtype=float)
+        pvl = np.asarray(res.pvalue[d], dtype=float)
+        pdc = np.asarray(tpv[d])
+        if tst.shape != shape or pvl.shape != shape or pdc.shape != shape:
+            obs['malformed'] = f'shapes {tst.shape} {pvl.shape} {pdc.shape} for {shape}'
+            return obs
+        obs['datasets'].append({
+            't': [bits(x) for x in tst.reshape(-1)],
+            'tmask': [bool(x) for x in np.ma.getmaskarray(res.tstud[d]).reshape(-1)],
+            'oracles': [bool(x) for x in oracles[d].reshape(-1)],
+            'p': [bits(x) for x in pvl.reshape(-1)],
+            'pdec': [bool(x) for x in pdc.reshape(-1)]})
+    return obs
 
 
 def run_impl(case, sets=None):
@@ -63,31 +102,62 @@ def run_impl(case, sets=None):
             dsets = make_datasets(case, sets)
             test = TestStudent(*dsets, name='student', alpha=case['alpha'], ndf=case['ndf'])
             res = test.evaluate()
-            ndat = len(dsets) - 1
-            oracles = np.asarray(res.oracles())
-            tpv = res.test_pvalue()
-            obs = {'thr': bits(test.threshold), 'verdict': bool(res), 'datasets': []}
-            if len(res.tstud) != ndat or oracles.shape != (ndat,) + shape \
-                    or not isinstance(tpv, (list, tuple, np.ndarray)) or len(tpv) != ndat \
-                    or len(res.pvalue) != ndat:
-                obs['malformed'] = (f'tstud {len(res.tstud)}, oracles {oracles.shape}, '
-                                    f'test_pvalue() = {tpv if not isinstance(tpv, (list, tuple, np.ndarray)) else len(tpv)!r}')
-                return obs
-            for d in range(ndat):
-                tst = np.asarray(res.tstud[d], dtype=float)
-                pvl = np.asarray(res.pvalue[d], dtype=float)
-                pdc = np.asarray(tpv[d])
-                if tst.shape != shape or pvl.shape != shape or pdc.shape != shape:
-                    obs['malformed'] = f'shapes {tst.shape} {pvl.shape} {pdc.shape} for {shape}'
-                    return obs
-                obs['datasets'].append({
-                    't': [bits(x) for x in tst.reshape(-1)],
-                    'oracles': [bool(x) for x in oracles[d].reshape(-1)],
-                    'p': [bits(x) for x in pvl.reshape(-1)],
-                    'pdec': [bool(x) for x in pdc.reshape(-1)]})
-            return obs
+            return observe(test, res, shape)
     except Exception as exc:  # noqa
         return {'raise': type(exc).__name__}
+
+
+def history(ctx, case, obs):
+    '''the user's TestStudent object is evaluated, wrapped in Bonferroni / Holm-Bonferroni tests that
+    are evaluated (in any order, possibly several times), evaluated again; after every step the
+    FIRST result object and the test's alpha / ndf / threshold must read what they read at the start,
+    a new evaluation must give an equal result, and earlier correction results must not change'''
+    from valjean.gavroche.stat_tests.student import TestStudent
+    from valjean.gavroche.stat_tests.bonferroni import TestBonferroni, TestHolmBonferroni
+    rng = ctx.rng
+    shape = tuple(case['shape'])
+    ops = [rng.choice(['bonf', 'holm', 'student', 'bonf', 'holm']) for _ in range(rng.randint(2, 5))]
+    walphas = [rng.choice([case['alpha'], 0.01, 0.2, 0.5]) for _ in ops]
+    tag = f' (history: evaluate, then {list(zip(ops, walphas))}) :: {json.dumps(case)[:600]}'
+    hcase = dict(case, history=[list(x) for x in zip(ops, walphas)])
+    try:
+        with np.errstate(all='ignore'):
+            test = TestStudent(*make_datasets(case), name='student', alpha=case['alpha'], ndf=case['ndf'])
+            first = test.evaluate()
+            start = observe(test, first, shape)
+            if start != obs:
+                ctx.oracle_failure('two identical Student tests give different results' + tag, hcase,
+                                   key='history-nondeterministic')
+                return
+            wrappers, wresults = {}, []
+            for op, walpha in zip(ops, walphas):
+                if op == 'student':
+                    again = observe(test, test.evaluate(), shape)
+                    if again != start:
+                        ctx.oracle_failure('re-evaluating the same Student test gives another result' + tag,
+                                           hcase, key='history-reevaluation')
+                        return
+                else:
+                    cls = TestBonferroni if op == 'bonf' else TestHolmBonferroni
+                    wrp = wrappers.setdefault((op, walpha), cls(name=op, test=test, alpha=walpha))
+                    wres = wrp.evaluate()
+                    wresults.append((wres, bool(wres), [np.array(x, copy=True) for x in wres.rejected_null_hyp]))
+                if observe(test, first, shape) != start:
+                    now = observe(test, first, shape)
+                    diff = [k for k in start if start[k] != now.get(k)]
+                    ctx.oracle_failure(f'after step {op!r} the first Student result / its test read differently '
+                                       f'({diff}: alpha {unbits(start["alpha"])!r} -> {unbits(now["alpha"])!r}, '
+                                       f'verdict {start["verdict"]} -> {now["verdict"]})' + tag, hcase,
+                                       key='history-earlier-result-changed')
+                    return
+                for wres, wbool, wflags in wresults:
+                    if bool(wres) != wbool or not all(np.array_equal(a, b) for a, b in
+                                                      zip(wres.rejected_null_hyp, wflags)):
+                        ctx.oracle_failure('an earlier correction result changed' + tag, hcase,
+                                           key='history-correction-changed')
+                        return
+    except Exception as exc:  # noqa
+        ctx.oracle_failure(f'history raises {type(exc).__name__}' + tag, hcase, key='history-raises')
 
 
 # --------------------------------------------------------------------------
@@ -177,6 +247,11 @@ def oracle(ctx, case, obs):
                            + obs['malformed'] + ')' + tag, case, key='malformed')
         return False
     alpha, ndf = case['alpha'], case['ndf']
+    if unbits(obs['alpha']) != alpha or obs['ndf'] != ndf:
+        ctx.oracle_failure(f'the test reads alpha = {unbits(obs["alpha"])!r}, ndf = {obs["ndf"]!r}; requested '
+                           f'{alpha!r}, {ndf!r}' + tag, case, key='requested-level')
+        return False
+    emasks = expected_masks(case)
     thr_exp = expected_threshold(alpha, ndf)
     thr = unbits(obs['thr'])
     if not rel_close(thr, thr_exp, 1e-9):
@@ -192,6 +267,17 @@ def oracle(ctx, case, obs):
             t = unbits(dobs['t'][i])
             p = unbits(dobs['p'][i])
             where = f'bin {i} of dataset {d}'
+            if emasks and emasks[d][i] and not dobs['tmask'][i]:
+                ctx.oracle_failure(f'{where}: masked in the datasets but its statistic is not masked' + tag,
+                                   case, key='mask')
+                return False
+            if dobs['tmask'][i] and not emasks:
+                ctx.oracle_failure(f'{where}: statistic masked although no dataset is masked' + tag, case,
+                                   key='mask')
+                return False
+            # (numpy's masked division also masks bins whose quotient is not finite)
+            if dobs['tmask'][i]:
+                continue                     # a masked bin takes no part in the comparison
             texp = expected_t(ref_v[i], ref_e[i], dv[i], de[i])
             if not rel_close(t, texp, 1e-9):      # an overflow-free quadratic sum is as good
                 thyp = expected_t(ref_v[i], ref_e[i], dv[i], de[i], hypot=True)
@@ -242,7 +328,9 @@ def oracle(ctx, case, obs):
                                    key='oracle-vs-pvalue')
                 return False
             all_expected = all_expected and (want or band)
-    all_oracles = all(all(dobs['oracles']) for dobs in obs['datasets'])
+    if emasks and any(all(dobs['tmask']) for dobs in obs['datasets']):
+        return True                          # a comparison without any unmasked bin: nothing to decide
+    all_oracles = all(o or m for dobs in obs['datasets'] for o, m in zip(dobs['oracles'], dobs['tmask']))
     if obs['verdict'] != all_oracles:
         ctx.oracle_failure(f'verdict {obs["verdict"]} but conjunction of the oracles is {all_oracles}' + tag,
                            case, key='verdict-vs-oracles')
@@ -393,6 +481,62 @@ def gen_case(rng, quick):
             'datasets': [[[bits(x) for x in v], [bits(x) for x in e]] for v, e in sets]}
 
 
+def gen_int_case(rng, quick):
+    '''integer-valued data (counts) presented with integer dtypes: all values int, or mixed with
+    float datasets; errors int (incl. unsigned) or float; 0-d cases as numpy or Python ints'''
+    nd = rng.choice([0, 0, 1, 1, 2, 3])
+    shape = [rng.choice([1, 2, 3, 4, 6]) for _ in range(nd)]
+    size = int(np.prod(shape)) if shape else 1
+    ndat = rng.choice([1, 1, 2, 3])
+    mult = rng.choice([1, 1, 10, 1000])
+    ref_v = [float(rng.randint(-50, 50) * mult) for _ in range(size)]
+    all_int = rng.random() < 0.6
+    sets, dts = [], []
+    for k in range(ndat + 1):
+        int_err = rng.random() < 0.5
+        es = [float(0 if rng.random() < 0.12 else rng.randint(1, 9) * mult) if int_err
+              else round(rng.uniform(0.5, 9.0), 2) * mult for _ in range(size)]
+        vs = ref_v if k == 0 else [v if rng.random() < 0.15 else v + float(rng.randint(-25, 25) * mult)
+                                   for v in ref_v]
+        int_val = all_int or rng.random() < 0.5
+        if not int_val:
+            vs = [v + round(rng.uniform(-0.5, 0.5), 2) for v in vs]
+        scal = (not shape) and rng.random() < 0.5
+        dts.append(['pyint' if scal else rng.choice(layouts.INT_VALUE_DTYPES) if int_val else 'float64',
+                    ('pyint' if scal else rng.choice(layouts.INT_ERROR_DTYPES)) if int_err else 'float64'])
+        sets.append([vs, es])
+    alpha = rng.choice(ALPHAS)
+    return {'shape': shape, 'alpha': alpha, 'ndf': rng.choice(NDFS), 'dtypes': dts,
+            'layouts': [[layouts.pick(rng, shape), layouts.pick(rng, shape)] for _ in sets],
+            'datasets': [[[bits(x) for x in v], [bits(x) for x in e]] for v, e in sets]}
+
+
+def add_masks(rng, case):
+    '''the reference and / or compared datasets go through Dataset.mask(): no, some or all bins'''
+    size = len(case['datasets'][0][0])
+    if not case['shape']:
+        return case
+
+    def pattern():
+        q = rng.random()
+        if q < 0.2:
+            return [0] * size
+        if q < 0.3:
+            return [1] * size
+        return [int(rng.random() < 0.3) for _ in range(size)]
+    who = rng.choice(['ref', 'cmp', 'both', 'same'])
+    same = pattern()
+    masks = []
+    for k in range(len(case['datasets'])):
+        if who == 'same':
+            masks.append(same)
+        elif (k == 0) == (who == 'ref') or who == 'both':
+            masks.append(pattern())
+        else:
+            masks.append(None)
+    return dict(case, masks=masks)
+
+
 ERR_SPECIALS = [INF, NAN, 0.0, 0.5]
 VAL_SPECIALS = [INF, -INF, NAN, 0.0, -0.0, 1.5, -1.5]
 
@@ -458,6 +602,24 @@ def boundary_cases(rng, n):
             if ps:
                 out.append(dict(case, alpha=rng.choice(ps)))
     return out
+
+
+def strip_masked(case, obs):
+    '''the unmasked bins of a masked comparison with ONE compared dataset, as a 1-d case for the
+    model (which has no notion of mask); None when there is nothing to send'''
+    if len(case['datasets']) != 2 or 'datasets' not in obs or 'malformed' in obs:
+        return None
+    keep = [i for i, m in enumerate(obs['datasets'][0]['tmask']) if not m]
+    if not keep:
+        return None
+    sel = lambda lst: [lst[i] for i in keep]
+    ncase = {'shape': [len(keep)], 'alpha': case['alpha'], 'ndf': case['ndf'],
+             'datasets': [[sel(v), sel(e)] for v, e in case['datasets']]}
+    if extreme_scale(ncase):
+        return None
+    dobs = obs['datasets'][0]
+    nobs = dict(obs, datasets=[{k: sel(dobs[k]) for k in ('t', 'tmask', 'oracles', 'p', 'pdec')}])
+    return ncase, nobs
 
 
 def mk(shape, alpha, ndf, *sets):
@@ -530,7 +692,7 @@ def run(ctx):
     ctx.rule = ('corpus (docstring examples, 0/0, NaN/inf patterns, signed zeros) + boundary cases (|t| == critical value exactly and its float neighbours, alpha == p-value of a bin) + random comparisons: scalar to 4-d, '
                 '1..3 compared datasets, differences of 0.5..3 sigma, exact ties 12%, zero errors 10%, NaN/inf 5% '
                 'each in a third of the cases, magnitudes 1e-321..1e160, alpha in {0.001..0.5} or random, ndf in '
-                '{None,1,2,10,1000,10001,1e6} or random in 1e4..1e7, with bins 1e-7 and 1e-4 (relative) inside/outside the reference critical value for every ndf class; every combination of inf/NaN/0/finite errors and values across the two sides; arrays handed over C-/Fortran-ordered, axis-permuted, strided, negatively strided, read-only or broadcast; each case also run swapped, rescaled by 2^k, with grown differences and with '
+                '{None,1,2,10,1000,10001,1e6} or random in 1e4..1e7, with bins 1e-7 and 1e-4 (relative) inside/outside the reference critical value for every ndf class; every combination of inf/NaN/0/finite errors and values across the two sides; HISTORIES on a third of the cases (the same TestStudent object evaluated, wrapped in Bonferroni/Holm tests that are evaluated in any order, re-evaluated; earlier results re-read); 12% integer-valued data with int64/int32/uint/Python-int dtypes (all-int or mixed with float datasets); 12% datasets masked through Dataset.mask() (none/some/all bins, reference and/or compared); arrays handed over C-/Fortran-ordered, axis-permuted, strided, negatively strided, read-only or broadcast; each case also run swapped, rescaled by 2^k, with grown differences and with '
                 'halved errors; non-trivial = passing and failing bins in one case (or a scalar case)')
     cases = corpus()
     ctx.count('corpus', len(cases))
@@ -541,23 +703,44 @@ def run(ctx):
     cases += window_cases()
     ctx.count('critical_window_cases', len(cases) - ncorp)
     ncorp = len(cases)
-    nrand = 800 if quick else 15000
+    nrand = 650 if quick else 13000
     cases += boundary_cases(ctx.rng, 60 if quick else 1000)
     ctx.count('boundary', len(cases) - ncorp)
-    cases += [gen_case(ctx.rng, quick) for _ in range(nrand)]
+    for _ in range(nrand):
+        q = ctx.rng.random()
+        if q < 0.12:
+            cases.append(gen_int_case(ctx.rng, quick))
+        elif q < 0.24:
+            cases.append(add_masks(ctx.rng, gen_case(ctx.rng, quick)))
+        else:
+            cases.append(gen_case(ctx.rng, quick))
     done = []
     t_start = time.time()
-    for case in cases:
+    for k, case in enumerate(cases):
         obs = run_impl(case)
         good = oracle(ctx, case, obs)
-        if good:
+        masked = bool(case.get('masks'))
+        if good and not masked:
             metamorphic(ctx, case, obs)
+        if good and (k < 60 or ctx.rng.random() < 0.35):
+            history(ctx, case, obs)
+            ctx.count('histories')
+        if masked:
+            ctx.count('masked_cases')
+        if case.get('dtypes'):
+            ctx.count('integer_dtype_cases')
         nontrivial = classify(ctx, case, obs)
         ctx.case_seen(case, nontrivial, sample_every=499)
         if 'raise' in obs:
             ctx.count('raise_' + obs['raise'])
         elif 'malformed' in obs:
             ctx.count('malformed')
+        elif masked:
+            stripped = strip_masked(case, obs)
+            if stripped is None:
+                ctx.count('masked_not_sent_to_model')
+            else:
+                done.append(stripped)
         elif extreme_scale(case):
             ctx.count('extreme_scale_not_sent_to_model')   # sqrt(e1^2+e2^2) vs hypot differ: either is fine
         else:
